@@ -35,7 +35,7 @@ MANIFEST = {
     'text': 'Timing schedules around the hold time and keepalive interval are generated per negotiated H and played against the '
     'real Peer main loop with time.time and the asyncio clock virtualised; each trace is checked for never-early, '
     'bounded-late, keepalive spacing, H=0 and open-wait bounds.',
-    'note': 'virtual clock faithful for timer order, not for kernel TCP timing; G is fixed once; blocked-writer starvation is a separate class',
+    'note': 'virtual clock faithful for timer order, not for kernel TCP timing; G is fixed once; also driven: silence in OPENCONFIRM, a late confirming KEEPALIVE, bytes of a never completed message, a remote which reads 200 octets/s, and a remote which stops reading (blocked writer: recorded known finding)',
 }
 SHARD_TIMEOUT = {'quick': 900, 'thorough': 3000}
 
